@@ -30,6 +30,9 @@ CLAIMED = {
  "C14": dict(cat="model_checking", ref="6 C14",
    tech="TLC: map/list model (CelMapMC) over all key-insertion sequences and queries; trace validation of every small map x query key x query form executed by cel-rust",
    text="In the model all five query forms are functions of one key-presence notion with int/uint twins identified, literals keep exactly their entries, list indexing and additivity laws hold. cel-rust answers every query form for every map with <=4 keys of a 10-key alphabet (twins and zero included) and 18 query keys, all lists up to length 5 with all indices incl. extremes, and random concatenations; each answer must equal the model's."),
+ "C11": dict(cat="model_checking", ref="6 C11",
+   tech="TLC: CelContext state graph with invariants/action properties; every transition replayed on a real Context (transition coverage) and validated by CelContextTrace; macro scoping model-checked in CelEval and replayed",
+   text="The scope-chain machine (define, redefine, open, close, register function) is model-checked over its whole state graph (InnermostWins, ParentsFrozen, CloseRestores, NamespacesDisjoint). Every edge of the graph is driven on a real cel-rust Context from a shortest path and all lookups in both namespaces are compared after each operation and during scope drop; random histories up to 200 operations are validated the same way. Macro scoping: all programs nesting macros over clashing names are model-checked (ScopeDiscipline) and executed."),
 }
 
 def main():
